@@ -122,6 +122,26 @@ def long_list(rng, deep=True):
     return out
 
 
+def deep_value(rng, depth):
+    """A chain of `depth` nested containers (dicts and lists mixed) around a leaf: the deep tail of the nesting
+    distribution, on both sides of round bounds (64, 128)."""
+    v = rng.choice(["leaf", 0, "", True])
+    for _ in range(depth):
+        r = rng.random()
+        if r < 0.55:
+            v = {"k": v}
+        elif r < 0.75:
+            v = {"k": v, "z": 1}
+        else:
+            v = [v]
+    if isinstance(v, list):
+        v = {"k": v}
+    return v
+
+
+DEEP_DEPTHS = [3, 20, 62, 63, 64, 65, 66, 70, 127, 128, 129, 130]
+
+
 # ---------------------------------------------------------------- objects
 
 def base(rng, typ, v21):
@@ -364,6 +384,8 @@ def gen_build(rng, how=None, want_markings=True):
             d["x_list"] = long_list(rng)
         if rng.random() < 0.2:
             d["labels"] = ["label-%02d" % i for i in range(rng.choice([11, 12, 13]))]
+        if rng.random() < 0.12:
+            d["x_deep"] = deep_value(rng, rng.choice(DEEP_DEPTHS))
         if how == "dict" and rng.random() < 0.15:
             d["name-2"] = "n2"                                 # a sibling of `name` that extends it with '-'
         # custom properties, prefix-related names
@@ -687,4 +709,4 @@ def priority_selector(sel):
     """Selectors whose acceptance depends on enumeration / comparison order: indices of two or more digits,
     anything under the order-sensitive custom content."""
     import re
-    return bool(re.search(r"\[\d\d+\]", sel)) or sel.startswith("x_opts") or sel.startswith("x_list") or sel.startswith("name-")
+    return sel.count(".") >= 40 or bool(re.search(r"\[\d\d+\]", sel)) or sel.startswith("x_opts") or sel.startswith("x_list") or sel.startswith("name-")
